@@ -22,7 +22,9 @@ EXPLANATION = (
     "yielded count, index and view agree with the planned block (R5); buffer sizes and the byte-count comparison are "
     "gulp*bytes-per-sample / block*bytes-per-element (R6); the library's own skipback plans raise gulp to "
     ">= 2*skipback first (R7); the plan skeleton has stride gulp-skipback, full blocks of gulp samples and a final "
-    "partial block (R8). Not decided: the integer arithmetic of the plan over all (nsamps, gulp, skipback) - a "
+    "partial block (R8); the stream primitives it relies on for multi-file sets - relative seek = position + offset, position = "
+    "in-file position + data of the preceding files, offset -> (file, in-file offset), advance-to-next-file loops - are the "
+    "ones C02 certifies (R9). Not decided: the integer arithmetic of the plan over all (nsamps, gulp, skipback) - a "
     "Presburger statement - and sample values."
 )
 READERS = "sigpyproc.readers"
@@ -446,16 +448,18 @@ def check_library_plans(prog: Program, res: Result) -> None:
         cn = flow.cfg.node_for(pl.call)
         key = f"{fn.qualname}:skipback-plan"
         g = pl.kw("gulp")
-        if not isinstance(g, ast.Name):
-            res.bad("R7", fn, pl.call, "gulp passed to a skipback plan is not a local name", key=key)
-            continue
-        ds = flow.reaching(g.id, cn)
+        env = PolyEnv()
+        want = env.poly(sb).scale(2)
+
+        def is_clamp(v: ast.AST, gname: str | None) -> bool:
+            return isinstance(v, ast.Call) and dotted(v.func) == "max" and len(v.args) == 2 and any(env.poly(a) == want for a in v.args) \
+                and (gname is None or any(norm(a) == gname for a in v.args))
         ok = False
-        if len(ds) == 1 and isinstance(ds[0].value, ast.Call) and dotted(ds[0].value.func) == "max" and len(ds[0].value.args) == 2:
-            args = ds[0].value.args
-            env = PolyEnv()
-            want = env.poly(sb).scale(2)
-            ok = any(env.poly(a) == want for a in args) and any(norm(a) == g.id for a in args)
+        if isinstance(g, ast.Name):
+            ds = flow.reaching(g.id, cn)
+            ok = len(ds) == 1 and ds[0].value is not None and is_clamp(ds[0].value, g.id)
+        elif g is not None:
+            ok = is_clamp(g, None)
         if ok:
             res.ok("R7", fn, pl.call, f"gulp = max(2*{norm(sb)}, gulp) reaches the read_plan call: skipback <= gulp/2", key=key)
         else:
@@ -470,6 +474,16 @@ def run(prog: Program, res: Result, tier: str) -> None:
     check_reader(prog, res, prog.func(READERS, "FilReader.read_plan"), "fil")
     check_reader(prog, res, prog.func(READERS, "PFITSReader.read_plan"), "pfits")
     check_library_plans(prog, res)
+    # ---- R9: the stream primitives the plan relies on (multi-file sets): shared with C02 ----------------
+    # read_plan rewinds with a *relative* seek and reads across file boundaries with creadinto; both are only right if
+    # the reported stream position, the offset->(file, in-file offset) map and the file-advance loop are right.
+    from .c02 import run as run_c02
+    scratch = Result("C02", prog)
+    run_c02(prog, scratch, tier)
+    for o in scratch.obligations:
+        if o.rule in ("C02.R1", "C02.R4", "C02.R5", "C02.R6") or o.key == "seek:whence":
+            res.add("R9", None, None, o.ok, f"[{o.rule}] {o.detail}", construct=o.construct, key=f"{o.rule}:{o.key}", where=o.where)
+            res.obligations[-1].file, res.obligations[-1].line = o.file, o.line
     res.assumptions += ["FileReader.creadinto fills the buffer it is given up to len(buffer) bytes (C02)",
                         "plans are consumed to completion by the library's own loops"]
     res.floor("R1", 4)
@@ -480,6 +494,7 @@ def run(prog: Program, res: Result, tier: str) -> None:
     res.floor("R6", 4)
     res.floor("R7", 3)
     res.floor("R8", 2)
+    res.floor("R9", 20)
 
 
 R = "sigpyproc/readers.py"
